@@ -90,6 +90,7 @@ type contFn func(st *State, results []Val)
 type State struct {
 	V        map[any]Val
 	Alias    map[ssa.Value]ssa.Value // free variable -> captured cell; parameter -> argument
+	Args     map[ssa.Value]ssa.Value // parameter of an inlined callee -> the argument value of this call (identity, any type)
 	Volatile map[any]bool            // cells that may be written behind the explorer's back
 	Fresh    map[ssa.Value]bool      // allocations executed on this path (unwritten fields hold zero values)
 	Visit    map[*ssa.BasicBlock]int
@@ -101,11 +102,11 @@ type State struct {
 }
 
 func NewState() *State {
-	return &State{V: map[any]Val{}, Alias: map[ssa.Value]ssa.Value{}, Volatile: map[any]bool{}, Fresh: map[ssa.Value]bool{}, Visit: map[*ssa.BasicBlock]int{}, Flags: map[string]int{}}
+	return &State{V: map[any]Val{}, Alias: map[ssa.Value]ssa.Value{}, Args: map[ssa.Value]ssa.Value{}, Volatile: map[any]bool{}, Fresh: map[ssa.Value]bool{}, Visit: map[*ssa.BasicBlock]int{}, Flags: map[string]int{}}
 }
 
 func (s *State) Clone() *State {
-	c := &State{V: make(map[any]Val, len(s.V)), Alias: make(map[ssa.Value]ssa.Value, len(s.Alias)), Volatile: make(map[any]bool, len(s.Volatile)),
+	c := &State{V: make(map[any]Val, len(s.V)), Alias: make(map[ssa.Value]ssa.Value, len(s.Alias)), Args: make(map[ssa.Value]ssa.Value, len(s.Args)), Volatile: make(map[any]bool, len(s.Volatile)),
 		Fresh: make(map[ssa.Value]bool, len(s.Fresh)), Visit: make(map[*ssa.BasicBlock]int, len(s.Visit)), Flags: make(map[string]int, len(s.Flags))}
 	for k, v := range s.Fresh {
 		c.Fresh[k] = v
@@ -115,6 +116,9 @@ func (s *State) Clone() *State {
 	}
 	for k, v := range s.Alias {
 		c.Alias[k] = v
+	}
+	for k, v := range s.Args {
+		c.Args[k] = v
 	}
 	for k, v := range s.Volatile {
 		c.Volatile[k] = v
@@ -194,11 +198,13 @@ type Hooks struct {
 	// reverse order), so that rules see deferred calls where they take effect.
 	Deferred func(st *State, d *ssa.Defer)
 	// Stop cuts a path short (checked at every block entry).
-	Stop      func(st *State) bool
-	MaxVisits int
-	MaxPaths  int
-	Paths     int
-	Truncated bool
+	Stop func(st *State) bool
+	// NoAutoInline switches off the exploration of new helper functions in place.
+	NoAutoInline bool
+	MaxVisits    int
+	MaxPaths     int
+	Paths        int
+	Truncated    bool
 }
 
 func classOfType(t types.Type) string {
@@ -232,6 +238,27 @@ func isPointerLike(t types.Type) bool {
 func (s *State) Resolve(v ssa.Value) ssa.Value {
 	for i := 0; i < 16; i++ {
 		a, ok := s.Alias[v]
+		if !ok {
+			return v
+		}
+		v = a
+	}
+	return v
+}
+
+// ArgOf follows parameters of inlined callees back to the argument values of the calls being
+// explored (context-sensitive; conversions are looked through).
+func (s *State) ArgOf(v ssa.Value) ssa.Value {
+	for i := 0; i < 16; i++ {
+		switch x := v.(type) {
+		case *ssa.ChangeType:
+			v = x.X
+			continue
+		case *ssa.MakeInterface:
+			v = x.X
+			continue
+		}
+		a, ok := s.Args[v]
 		if !ok {
 			return v
 		}
@@ -543,8 +570,15 @@ func Explore(fn *ssa.Function, b *ssa.BasicBlock, idx int, pred *ssa.BasicBlock,
 					return
 				}
 			}
-			if h.Inline != nil {
-				if cal, maySkip := h.Inline(st, x); cal != nil && len(st.Cont) < 6 {
+			inline := h.Inline
+			if h.NoAutoInline == false {
+				// new helper functions (extracted by a refactoring) are always explored in place
+				if cal := x.Call.StaticCallee(); cal != nil && newHelpers[cal] && cal.Blocks != nil {
+					inline = func(*State, *ssa.Call) (*ssa.Function, bool) { return cal, false }
+				}
+			}
+			if inline != nil {
+				if cal, maySkip := inline(st, x); cal != nil && len(st.Cont) < 6 {
 					if maySkip {
 						Explore(fn, b, i+1, pred, st.Clone(), h)
 					}
@@ -668,6 +702,7 @@ func bindCallee(st *State, call *ssa.Call, cal *ssa.Function) {
 		if k < len(cc.Args) {
 			// arguments are immutable SSA values: remember their abstract value now
 			st.V[p] = st.Eval(cc.Args[k])
+			st.Args[p] = st.ArgOf(cc.Args[k])
 			if _, isPtr := p.Type().Underlying().(*types.Pointer); isPtr {
 				// keep the identity of the pointed-to object so that field cells coincide
 				delete(st.V, p)
@@ -1043,4 +1078,50 @@ func (c *Ctx) sameReceiverCallee(fn *ssa.Function, call *ssa.Call) *ssa.Function
 		return nil
 	}
 	return cal
+}
+
+// ExploreInside starts an exploration at a point that may lie inside a new helper function: the
+// paths then continue, when the helper returns, after each of its call sites (and so on outward),
+// so that a rule anchored at a site sees the rest of the caller as if the helper were inlined.
+func ExploreInside(b *ssa.BasicBlock, idx int, pred *ssa.BasicBlock, st *State, h *Hooks) {
+	fn := b.Parent()
+	withReturnTo(fn, st, 0, func(s *State) {
+		Explore(fn, b, idx, pred, s, h)
+	}, h)
+}
+
+func withReturnTo(fn *ssa.Function, st *State, depth int, k func(*State), h *Hooks) {
+	if !newHelpers[fn] || len(helperSites[fn]) == 0 || depth > 3 {
+		k(st)
+		return
+	}
+	for _, cs := range helperSites[fn] {
+		call, ok := cs.(*ssa.Call)
+		if !ok {
+			continue // go/defer of a helper: its result goes nowhere
+		}
+		caller := call.Parent()
+		cb := call.Block()
+		ci := -1
+		for i, ins := range cb.Instrs {
+			if ins == ssa.Instruction(call) {
+				ci = i
+			}
+		}
+		if ci < 0 {
+			continue
+		}
+		withReturnTo(caller, st.Clone(), depth+1, func(s *State) {
+			s.Cont = append(s.Cont, func(st2 *State, results []Val) {
+				res := map[int]Val{}
+				for k, r := range results {
+					res[k] = r
+				}
+				st2.Visit = map[*ssa.BasicBlock]int{}
+				bindResults(st2, call, res)
+				Explore(caller, cb, ci+1, nil, st2, h)
+			})
+			k(s)
+		}, h)
+	}
 }
